@@ -24,7 +24,7 @@ Extraction "model"
   RTTE_MIN_RTO RTTE_MAX_RTO CLOCK_GRANULARITY RTTE_INITIAL_RTT
   rx_build rx_trace rx_run c04_ok
   segments_new seg_trace seg_run
-  tx_new tx_trace tx_run c19_ok
+  tx_new tx_trace tx_run c19_ok c19_grow_ok
   deserialize serialize msg_deserialize sack_new sack_deserialize c11_de_ok c11_msg_ok c11_ser_ok
   fevent_of fp_of_vsock ftrace
   vsock_new_cubic vtrace_cubic retransmission_timeout roundtrip_time cubic_window cubic_sshthresh
